@@ -35,7 +35,7 @@ LEVEL_TEXT = (
 )
 LEVEL_NOTE = "The bound B is computed from the spec; observed makespans stay far below 2B (ratio reported in the evidence counters)."
 
-CFG_STATUS = gen.Cfg(facilities=True, nested="assembly", max_time=list(range(0, 41)), kinds=[0, 0, 1, 2, 3])
+CFG_STATUS = gen.Cfg(facilities=True, nested="assembly", max_time=list(range(0, 41)), kinds=[0, 0, 1, 2, 3], dup_names=0)
 CFG_FEAS = gen.Cfg(
     warm=4,
     facilities=False,
@@ -44,6 +44,7 @@ CFG_FEAS = gen.Cfg(
     abs_max=30,
     min_tasks=2,
     tie_rich=3,
+    dup_names=0,  # the repair steps below edit skills per task index; with shared names they would leak to other tasks
 )
 
 
@@ -135,6 +136,29 @@ def _feasible(draw):
     return {"kind": kind, "spec": spec, "victim": victim}
 
 
+CFG_RELAY = CFG_FEAS.copy(max_workers=3, work_pool=[1.0, 2.0, 3.0, 4.0, 6.0], tie_rich=0, abs_p=1, abs_size=8, abs_max=14, abs_long=0, max_teams=1, fixed_ids=False)
+
+
+@st.composite
+def _relay(draw):
+    """Feasible models in which one or two frequently absent workers have to do everything one task after the other:
+    a worker who is lost to the project at some step (never FREE again) leaves work that nobody else can do."""
+    spec = draw(gen.model_spec(CFG_RELAY))
+    n = len(spec["tasks"])
+    spec["teams"][0]["targets"] = list(range(n))
+    spec["teams"][0].pop("notask", None)
+    if not spec["workers"]:
+        spec["workers"].append({"team": 0, "cost": 1.0, "solo": False, "skills": {}, "fsk": {}, "abs": draw(gen.abs_list(14, 8)), "mw": None})
+    own = draw(st.integers(0, len(spec["workers"]) - 1))
+    for wi, w in enumerate(spec["workers"]):
+        w["team"] = 0
+        if wi == own:
+            w["skills"] = {str(i): draw(st.sampled_from([0.5, 1.0, 1.0, 2.0])) for i in range(n)}
+        else:  # helpers on some of the tasks: a task is then finished by one worker while the other is away
+            w["skills"] = {str(i): 0.5 for i in range(n) if draw(st.integers(0, 2)) > 0}
+    return {"kind": "feasible", "spec": make_feasible(spec), "victim": None}
+
+
 @st.composite
 def _status(draw, cfg):
     return {"kind": "status", "spec": draw(gen.model_spec(cfg)), "victim": None}
@@ -142,13 +166,13 @@ def _status(draw, cfg):
 
 def strategy(tier):
     if tier == "quick":
-        return st.one_of(_status(CFG_STATUS), _feasible(), _feasible())
-    return st.one_of(_status(CFG_STATUS.copy(max_tasks=12)), _feasible(), _feasible())
+        return st.one_of(_status(CFG_STATUS), _feasible(), _feasible(), _relay())
+    return st.one_of(_status(CFG_STATUS.copy(max_tasks=12)), _feasible(), _feasible(), _relay())
 
 
 def budget(tier):
     if tier == "quick":
-        return {"cases": 2000, "shards": 4}
+        return {"cases": 3000, "shards": 6}
     return {"cases": 120000, "shards": 16}
 
 
